@@ -28,6 +28,7 @@ class Shadow:
 
     def copy(self, **kw):
         s = Shadow(self.cols, self.eng, self.pending, self.nrows, self.mat, self.multi, self.hidden, self.leaves, self.compound)
+        s.terms = self.terms              # (the most recent sort upstream: later sorts may relate to it)
         for k, v in kw.items():
             setattr(s, k, v)
         return s
@@ -225,7 +226,7 @@ class Gen:
                 self.pool.append(Shadow([], eng, nrows=1, leaves={len(self.pool)}))
             return
         cols = sorted(cols if cols is not None else self._cols())
-        n = r.choice([0, 1, 2, 3, 3, 4, 5][: self.max_rows + 2])
+        n = r.choice([0, 1, 2, 3, 3, 4, 5, 6, 7][: self.max_rows + 2])
         rows = []
         for _ in range(n):
             if rows and r.random() < 0.25:
